@@ -1,5 +1,6 @@
 import Rbp.Model.Driver
 import Rbp.Proofs.OpenFiles
+import Rbp.Proofs.OpenBound
 /-!
 # C17 — open blk files stay bounded by the files overlapping the current height
 (logical core; that dropping the reader releases the descriptor is the runtime's — partial)
@@ -39,5 +40,20 @@ theorem open_invariant_run (coin : Run.Coin) (o : Run.Opts) (key : Option W.Byte
   have h := Run.driveLoop_openInv coin o key files ld.full ld.trimmed (Run.loadIndex_nodup o kvs ld hld)
     (Run.loadIndex_sub o kvs ld hld) n o.start [] [] [] (by intro f hf; cases hf)
   simpa using h.2
+
+/-- **the bound on the executed whole-program model.**  For every run whose index loaded, in every state the driver loop can
+    stop in: the list of open blk files has no duplicates; each open file's height span contains the next height to deliver
+    (it stores a block at or below it and one at or above it) — so the number of open files is at most the number of files
+    whose spans overlap the current height; and when the files' height spans are pairwise disjoint at most ONE file is open,
+    however many thousand files the directory has. -/
+theorem open_bound_run (coin : Run.Coin) (o : Run.Opts) (key : Option W.Bytes) (files : List (Nat × Run.BlkFile))
+    (kvs : List (W.Bytes × W.Bytes)) (ld : Run.Loaded) (hld : Run.loadIndex o kvs = .ok ld) (n : Nat) :
+    let d := Run.driveLoop coin o key files ld.full ld.trimmed o.start n [] [] []
+    d.openSet.Nodup ∧
+    (∀ f ∈ d.openSet, (∃ h r, h ≤ o.start + d.blocks.length ∧ (h, r) ∈ ld.full ∧ r.file = f) ∧
+                       (∃ h r, o.start + d.blocks.length ≤ h ∧ (h, r) ∈ ld.full ∧ r.file = f)) ∧
+    (Run.DisjointSpans ld.full → d.openSet.length ≤ 1) :=
+  Run.driveLoop_open_bound coin o key files ld.full ld.trimmed (Run.loadIndex_nodup o kvs ld hld)
+    (Run.loadIndex_sub o kvs ld hld) n o.start
 
 end Rbp.Props.C17
